@@ -442,7 +442,11 @@ class Life:
                     # a trade that was given an order after it had completed: counts and trade status are outside
                     # the domain, but the runner must still be released once every order on it is complete
                     self.c("clause:C10.d")
-                    if all(o.complete for o in orders) and st.get_runner_context(*lookup).live_trades:
+                    mb_ = market.market_book
+                    active = mb_ is not None and mb_.status != "CLOSED" and any((r.selection_id, r.handicap) == (lookup[1], lookup[2]) and r.status == "ACTIVE" for r in mb_.runners)
+                    # (a lock-out is the inability to bet: on a removed runner or a closed market nothing can be placed
+                    # anyway - there a reused trade whose last order was voided before it executed stays charged)
+                    if active and all(o.complete for o in orders) and st.get_runner_context(*lookup).live_trades:
                         self.v("C10.d", ("lock-out", "reused-trade", _evkinds(self.hist, self.upd)), "every order on runner %s is complete but %d trade(s) are still charged as live (a completed trade was given a further order)" % (lookup[1:], len(st.get_runner_context(*lookup).live_trades)), once=(lookup, "reused-lock"))
                     continue
                 rc = st.get_runner_context(*lookup)
